@@ -10,6 +10,8 @@ explicit foreign operations `ext`):
   * sha1 of torch.get_rng_state(), numpy.random.get_state(), random.getstate() before and after;
   * the calls made to torch's random functions (pass-through wrappers): [name, numel];
   * the calls made to torch.manual_seed / torch.seed / torch.set_rng_state.
+  * `forms` / `layout`: the form in which every boolean / integer option was handed over ([call.option, form, positional?]) and how
+    many options of each call went positionally; the objects are rebuilt here from the operation's `fseed` / `iseed` (class Forms).
 Run with PYTHONPATH=<qucumber tree>:<verif root>; imports qucumber through harness.qc.
 """
 import hashlib
@@ -139,14 +141,135 @@ def rng_hashes():
     }
 
 
+# ------------------------------------------------------------------ argument forms (round 5: "Argument-form sweep" in notes/C14.md)
+# Every boolean option of every public call made below is handed over in one of qc.FLAG_FORMS (bool singleton, int 0/1, numpy.bool_,
+# result of a numpy comparison, 0-d numpy array, 0-d torch tensor), every integer option in one of qc.INT_FORMS (+ numpy.uint64 for
+# the seed), by keyword or -- a random prefix of the documented parameter order -- positionally.  The objects are rebuilt HERE, in the
+# runner process, from the two seeds the operation carries ("fseed" -> qc.Flags, "iseed" -> qc.Ints): the same operation therefore
+# hands over the same objects in every run and in every replay.  An operation WITHOUT those keys (corpus/C14/*.json, replays stored
+# before this round) is executed exactly as it always was: plain Python values, the legacy keyword / positional layout.
+# Forms the CLEAN tree rejects or misbehaves on are left out per option (probe: notes/C14.md):
+A_ALL = tuple(qc.INT_FORMS)                                 # pure loop counts (k, burn_in, steps) and sizes the library converts with int()
+#                                                             at once (num_visible, num_hidden, num_aux, size)
+# numpy.uint8 is left out for every count that may enter arithmetic (num_samples, num_chains, batch sizes, epochs, starting_epoch, period,
+# num, the seed): in NumPy 2 `-(-N // np.uint8(2))` raises OverflowError and `np.uint8(1) - np.uint8(3)` wraps to 254 inside numpy
+# itself, so a HARMLESS rewrite (ceiling idiom, `epochs - starting_epoch`) would raise a false alarm on that form
+A_ARITH = tuple(f for f in qc.INT_FORMS if f != "np.uint8")
+A_STAT = tuple(f for f in A_ARITH if f != "t0d")            # a 0-d tensor as num_samples / num_chains turns the running statistics into
+#                                                             float32 tensors; as subspace_vector(num) it raises ValueError
+A_PY = ("py",)
+
+
+def seed_forms(s):
+    """the forms in which the VALUE s can be handed to torch.manual_seed at all (all of them are accepted by the clean tree and leave the
+    generator in the state of the plain Python int; established over the whole range [-2^63, 2^64))"""
+    a = ["py"]
+    if -2 ** 63 <= s < 2 ** 63:
+        a += ["np.int64", "np.intp", "np0d", "t0d"]
+    if -2 ** 31 <= s < 2 ** 31:
+        a.append("np.int32")
+    if 2 ** 63 <= s < 2 ** 64:
+        a.append("np0d")        # numpy.array(s) is a 0-d uint64 array there
+    return a
+
+
+class Opt:
+    """one argument of a call in signature order: `entry` is its record in Forms.used (None for a non-option argument), `omit`: leave
+    it out altogether when it is not inside the positional prefix (an optional argument at its default)"""
+
+    def __init__(self, name, value, entry=None, omit=False):
+        self.name, self.value, self.entry, self.omit = name, value, entry, omit
+
+
+class Forms:
+    """the argument objects of ONE operation"""
+
+    def __init__(self, op):
+        self.fl = qc.Flags(op.get("fseed"))
+        self.it = qc.Ints(op.get("iseed"))
+        fs = op.get("fseed")
+        self.legacy = fs is None
+        # never a 0-d numpy array for one option and a 0-d torch tensor for ANOTHER option of the same operation: arithmetic between the two
+        # (`np.array(7) - torch.tensor(2)`) raises TypeError inside numpy / torch themselves, whatever the library does with its options
+        self.drop = "t0d" if (op.get("iseed") or 0) % 2 else "np0d"
+        self.prng = None if fs is None else random.Random((fs * 2654435761 + 17) % 2 ** 32)   # positional prefixes (private generator)
+        self.used = []      # [call.option, form, handed over positionally?]
+        self.layout = []    # [call, how many of its options went positionally: none / some / all]
+
+    def flag(self, call, name, b, omit=False):
+        v, d = self.fl(b)
+        e = [f"{call}.{name}", d["form"], False]
+        self.used.append(e)
+        return Opt(name, v, e, omit)
+
+    def int(self, call, name, n, allowed=A_ALL, omit=False):
+        if n is None:                       # "not given" stays None
+            return Opt(name, None, None, omit)
+        v, d = self.it(n, allowed=tuple(f for f in allowed if f != self.drop))
+        e = [f"{call}.{name}", d["form"], False]
+        self.used.append(e)
+        return Opt(name, v, e, omit)
+
+    def seed(self, call, name, s):
+        """the seed: any Python int; values numpy's / torch's 64-bit types cannot hold stay Python ints"""
+        if self.it.rng is not None and 0 <= s < 2 ** 64 and self.it.rng.random() < 0.12:
+            e = [f"{call}.{name}", "np.uint64", False]
+            self.used.append(e)
+            return Opt(name, np.uint64(s), e)
+        if self.it.rng is None or not (-2 ** 63 <= s < 2 ** 64):
+            e = [f"{call}.{name}", "py", False]
+            self.used.append(e)
+            return Opt(name, s, e)
+        other = [f for f in seed_forms(s) if f not in ("py", self.drop)]
+        form = "py" if (self.it.rng.random() < 0.2 or not other) else self.it.rng.choice(other)
+        v = np.array(s) if form == "np0d" else qc.int_value(form, s)
+        e = [f"{call}.{name}", form, False]
+        self.used.append(e)
+        return Opt(name, v, e)
+
+    def call(self, label, f, lead, opts, legacy_pos=0, **extra_kw):
+        """f(*lead, <opts>, **extra_kw): `opts` are the parameters that follow `lead` in the documented order; a prefix of them is
+        handed over positionally (legacy: the first `legacy_pos`), the rest by keyword"""
+        if self.prng is None:
+            p = legacy_pos
+        else:
+            p = 0 if self.prng.random() < 0.5 else self.prng.randint(1, len(opts))
+        args = list(lead)
+        kw = {}
+        for i, o in enumerate(opts):
+            if i < p:
+                args.append(o.value)
+                if o.entry is not None:
+                    o.entry[2] = True
+            elif not o.omit:
+                kw[o.name] = o.value
+        self.layout.append([label, "none" if p == 0 else "all" if p == len(opts) else "some"])
+        kw.update(extra_kw)
+        return f(*args, **kw)
+
+
+FORMS = [None]   # the Forms of the operation being executed (read by main() for the record)
+
+
 # ------------------------------------------------------------------ operations
-OBS = {
-    "SigmaX": lambda: SigmaX(), "SigmaY": lambda: SigmaY(), "SigmaZ": lambda: SigmaZ(),
-    "SigmaXabs": lambda: SigmaX(absolute=True),
-    "SWAP": lambda: SWAP([0]), "Neighbour": lambda: NeighbourInteraction(),
-    "NeighbourP": lambda: NeighbourInteraction(periodic_bcs=True),
-}
-OBS["Composite"] = lambda: 0.5 * SigmaZ() + 2 * SigmaX() - NeighbourInteraction() + 1.5  # composite observable (+, -, scalar *, constant)
+def make_obs(name, F):
+    """the observable `name`; its boolean constructor options in the forms of the operation's stream (legacy: as it always was)"""
+    if name == "Composite":   # composite observable (+, -, scalar *, constant)
+        return 0.5 * make_obs("SigmaZ", F) + 2 * make_obs("SigmaX", F) - make_obs("Neighbour", F) + 1.5
+    if name == "SWAP":
+        return SWAP([0])
+    if name in ("SigmaX", "SigmaY", "SigmaZ", "SigmaXabs"):
+        cls = {"SigmaX": SigmaX, "SigmaY": SigmaY, "SigmaZ": SigmaZ, "SigmaXabs": SigmaX}[name]
+        ab = name == "SigmaXabs"
+        return F.call(cls.__name__, cls, [], [F.flag(cls.__name__, "absolute", ab, omit=F.legacy and not ab)])
+    if name in ("Neighbour", "NeighbourP"):
+        pb = name == "NeighbourP"
+        return F.call("NeighbourInteraction", NeighbourInteraction, [],
+                      [F.flag("NeighbourInteraction", "periodic_bcs", pb, omit=F.legacy and not pb)])
+    raise KeyError(name)
+
+
+OBS = {n: (lambda n=n: make_obs(n, Forms({}))) for n in ("SigmaX", "SigmaY", "SigmaZ", "SigmaXabs", "SWAP", "Neighbour", "NeighbourP", "Composite")}
 
 
 class Extra:
@@ -204,8 +327,17 @@ def udict(st):
     return getattr(st, "unitary_dict", None) or unitaries.create_dict()
 
 
+def stat_opts(F, c, ns, nc, bi, steps):
+    """num_samples, num_chains, burn_in, steps of Observable/System.statistics (and of the evaluator's sampling_kwargs).  Left out on the
+    clean tree: a 0-d tensor as num_samples / num_chains (the running mean / variance become float32 tensors); num_samples = 0 is the
+    ZeroDivisionError case of the model (a numpy zero gives NaN and a ValueError instead), so 0 is only handed over as a Python int"""
+    return [F.int(c, "num_samples", ns, allowed=A_STAT if ns else A_PY), F.int(c, "num_chains", nc, allowed=A_STAT if ns else A_PY),
+            F.int(c, "burn_in", bi), F.int(c, "steps", steps)]
+
+
 def do_op(op, states, workdir):
     t = op["t"]
+    F = FORMS[0] = Forms(op)
     if t == "ext":
         w = op["what"]
         if w == "seedNumpy":
@@ -224,16 +356,21 @@ def do_op(op, states, workdir):
         torch.rand(op["m"])
         return None
     if t == "setSeed":
-        qucumber.set_random_seed(op["s"], cpu=op["cpu"], gpu=op.get("gpu", False), quiet=True)
+        c = "set_random_seed"
+        F.call(c, qucumber.set_random_seed, [], [F.seed(c, "seed", op["s"]), F.flag(c, "cpu", op["cpu"]), F.flag(c, "gpu", op.get("gpu", False)),
+                                                 F.flag(c, "quiet", True)], legacy_pos=1)
         return None
     if t == "construct":
         k = op["kind"]
-        if k == "pos":
-            st = PositiveWaveFunction(op["n"], num_hidden=op["h"], gpu=False)
-        elif k == "cplx":
-            st = ComplexWaveFunction(op["n"], num_hidden=op["h"], gpu=False)
-        else:
-            st = DensityMatrix(op["n"], num_hidden=op["h"], num_aux=op["a"], gpu=False)
+        cls = {"pos": PositiveWaveFunction, "cplx": ComplexWaveFunction, "dens": DensityMatrix}[k]
+        c = cls.__name__
+        opts = [F.int(c, "num_visible", op["n"]), F.int(c, "num_hidden", op["h"])]
+        if k == "dens":
+            opts.append(F.int(c, "num_aux", op["a"]))
+        if k != "pos":
+            opts.append(Opt("unitary_dict", None, omit=True))
+        opts.append(F.flag(c, "gpu", op.get("gpu", False)))   # gpu=True on a CUDA-less process: a warning, then the CPU
+        st = F.call(c, cls, [], opts, legacy_pos=1)
         # deterministic (RNG-free) non-zero biases on every network, incl. the phase network's auxiliary bias, so that
         # "evaluation never changes a parameter" is examined away from the all-zero initialisation
         if op.get("fill", True):
@@ -249,39 +386,50 @@ def do_op(op, states, workdir):
         return None
     if t == "sample":
         init = tens(op["init"]) if op.get("init") is not None else None
-        r = st.sample(k=op["k"], num_samples=op["num"], initial_state=init, overwrite=bool(op.get("overwrite", False)))
+        c = "state.sample"
+        r = F.call(c, st.sample, [], [F.int(c, "k", op["k"]), F.int(c, "num_samples", op["num"], allowed=A_ARITH), Opt("initial_state", init),
+                                      F.flag(c, "overwrite", op.get("overwrite", False))])
         return [r, init] if op.get("overwrite") else r  # with overwrite the caller's tensor is part of the result
     if t == "obsSample":
         init = tens(op["init"]) if op.get("init") is not None else None
-        return OBS[op["obs"]]().sample(st, k=op["k"], num_samples=op["num"], initial_state=init, overwrite=bool(op.get("overwrite", False)))
+        c = "observable.sample"
+        return F.call(c, make_obs(op["obs"], F).sample, [st], [F.int(c, "k", op["k"]), F.int(c, "num_samples", op["num"], allowed=A_ARITH), Opt("initial_state", init),
+                                                               F.flag(c, "overwrite", op.get("overwrite", False))])
     if t == "statistics":
-        obs = [OBS[o]() for o in op["obs"]]
+        obs = [make_obs(o, F) for o in op["obs"]]
         init = tens(op["init"]) if op.get("init") is not None else None
         target = obs[0] if len(obs) == 1 else System(*obs)
-        r = target.statistics(st, num_samples=op["ns"], num_chains=op["nc"], burn_in=op["bi"], steps=op["steps"],
-                              initial_state=init, overwrite=bool(op.get("overwrite", False)))
+        c = "observable.statistics" if len(obs) == 1 else "System.statistics"
+        r = F.call(c, target.statistics, [st], stat_opts(F, c, op["ns"], op["nc"], op["bi"], op["steps"])
+                   + [Opt("initial_state", init), F.flag(c, "overwrite", op.get("overwrite", False))])
         return [r, init] if op.get("overwrite") else r
     if t == "fit":
-        kw = dict(epochs=op["epochs"], pos_batch_size=op["posB"], neg_batch_size=op["negB"], k=op["k"], lr=op["lr"],
-                  starting_epoch=op["start"], optimizer=OPT[op["optimizer"]], progbar=False)
+        c = "state.fit"
+        kw = {}
         data = tens(op["data"])
-        if op.get("bases") is not None:
-            kw["input_bases"] = bases_arr(op["bases"])
         ev = op.get("evaluator")
         cbs = []
         if ev is not None:  # a callback that SAMPLES inside the epoch loop (Observable statistics every `period` epochs)
             from qucumber.callbacks import ObservableEvaluator
 
-            cbs.append(ObservableEvaluator(ev["period"], [OBS[o]() for o in ev["obs"]], verbose=False, num_samples=ev["ns"],
-                                           num_chains=ev["nc"], burn_in=ev["bi"], steps=ev["steps"]))
-        if cbs:
-            kw["callbacks"] = cbs
+            ce = "ObservableEvaluator"
+            so = stat_opts(F, ce, ev["ns"], ev["nc"], ev["bi"], ev["steps"])   # **sampling_kwargs: keyword only
+            cbs.append(F.call(ce, ObservableEvaluator, [], [F.int(ce, "period", ev["period"], allowed=A_ARITH), Opt("observables", [make_obs(o, F) for o in ev["obs"]]),
+                                                            F.flag(ce, "verbose", False)], legacy_pos=2, **{o.name: o.value for o in so}))
         if op.get("sched"):
             kw["scheduler"] = torch.optim.lr_scheduler.StepLR
             kw["scheduler_args"] = {"step_size": 1, "gamma": 0.5}
-        if op.get("time"):
-            kw["time"] = True
-        r = st.fit(data, **kw)
+        # pos_batch_size = 0 is the ZeroDivisionError case of the model (a numpy zero gives inf and an OverflowError instead)
+        opts = [F.int(c, "epochs", op["epochs"], allowed=A_ARITH), F.int(c, "pos_batch_size", op["posB"], allowed=A_ARITH if op["posB"] else A_PY),
+                F.int(c, "neg_batch_size", op["negB"], allowed=A_ARITH), F.int(c, "k", op["k"]), Opt("lr", op["lr"])]
+        if not isinstance(st, PositiveWaveFunction):   # (PositiveWaveFunction.fit has no `input_bases` parameter)
+            opts.append(Opt("input_bases", bases_arr(op["bases"]) if op.get("bases") is not None else None, omit=op.get("bases") is None))
+        elif op.get("bases") is not None:
+            kw["input_bases"] = bases_arr(op["bases"])
+        opts += [F.flag(c, "progbar", False),   # tested with `is False` by the library: a falsy non-singleton shows the bar (stderr only)
+                F.int(c, "starting_epoch", op["start"], allowed=A_ARITH), F.flag(c, "time", op.get("time", False), omit=F.legacy and not op.get("time")),
+                Opt("callbacks", cbs if cbs else None, omit=not cbs), Opt("optimizer", OPT[op["optimizer"]])]
+        r = F.call(c, st.fit, [data], opts, **kw)
         if ev is not None and r is None:  # what the evaluator recorded is an outcome of the training run (compared between runs)
             e = cbs[0]  # read back through the evaluator's public accessors only
             return Extra([[int(ep), {nm: e.get_value(nm, i) for nm in e.names}] for i, ep in enumerate(e.epochs)])
@@ -296,17 +444,17 @@ def do_op(op, states, workdir):
         if w == "normalization":
             return st.normalization(st.generate_hilbert_space())
         if w == "apply":
-            return OBS[op["obs"]]().apply(st, v)
+            return make_obs(op["obs"], F).apply(st, v)
         if w == "sfs":
-            return OBS[op["obs"]]().statistics_from_samples(st, v)
+            return make_obs(op["obs"], F).statistics_from_samples(st, v)
         if w == "sys_sfs":
-            return System(*[OBS[o]() for o in op["obss"]]).statistics_from_samples(st, v)
+            return System(*[make_obs(o, F) for o in op["obss"]]).statistics_from_samples(st, v)
         if w in ("amplitude", "phase"):  # wavefunctions only
             return getattr(st, w)(v)
         if w == "rho2":  # off-diagonal block rho(v, v') of a density matrix
             return st.rho(v, tens(op["rows2"]))
         if w == "pi":
-            return st.pi(v, tens(op["rows2"]), expand=bool(op.get("expand", True)))
+            return F.call("state.pi", st.pi, [v, tens(op["rows2"])], [F.flag("state.pi", "expand", op.get("expand", True))])
         if w == "is_denominator":
             return st.importance_sampling_denominator(v)
         if w in ("is_numerator", "is_weight"):
@@ -314,9 +462,10 @@ def do_op(op, states, workdir):
             f = st.importance_sampling_numerator if w == "is_numerator" else st.importance_sampling_weight
             return f(vp, v)
         if w == "hilbert_space":
-            return st.generate_hilbert_space(size=op.get("size"))
+            return F.call("state.generate_hilbert_space", st.generate_hilbert_space, [], [F.int("state.generate_hilbert_space", "size", op.get("size"))])
         if w == "subspace_vector":
-            return st.subspace_vector(op["num"], size=op.get("size"))
+            c = "state.subspace_vector"   # num: a 0-d tensor raises ValueError ("step must be greater than zero") on the clean tree
+            return F.call(c, st.subspace_vector, [], [F.int(c, "num", op["num"], allowed=A_STAT), F.int(c, "size", op.get("size"))], legacy_pos=1)
         if w == "compute_normalization":
             return st.compute_normalization(st.generate_hilbert_space())
         raise KeyError(w)
@@ -334,7 +483,7 @@ def do_op(op, states, workdir):
         w = op["what"]
         space = st.generate_hilbert_space()
         ud = None if op.get("default_dict") else udict(st)  # unitaries=None: the state's own / the default dictionary
-        extras = bool(op.get("extras", False))
+        extras = lambda c: F.flag(c, "include_extras", op.get("extras", False))  # noqa: E731
         if w == "rotate_psi":
             psi = st.psi(space) if op.get("given") else None  # psi= : rotate an explicitly given vector
             return unitaries.rotate_psi(st, op["basis"], space, unitaries=ud, psi=psi)
@@ -343,10 +492,12 @@ def do_op(op, states, workdir):
             return unitaries.rotate_rho(st, op["basis"], space, unitaries=ud, rho=rho)
         if w == "inner_prod":
             psi = st.psi(space) if op.get("given") else None
-            return unitaries.rotate_psi_inner_prod(st, op["basis"], tens(op["rows"]), unitaries=ud, psi=psi, include_extras=extras)
+            c = "unitaries.rotate_psi_inner_prod"
+            return F.call(c, unitaries.rotate_psi_inner_prod, [st, op["basis"], tens(op["rows"])], [Opt("unitaries", ud), Opt("psi", psi), extras(c)])
         if w == "rho_probs":
             rho = st.rho(space, space) if op.get("given") else None
-            return unitaries.rotate_rho_probs(st, op["basis"], tens(op["rows"]), unitaries=ud, rho=rho, include_extras=extras)
+            c = "unitaries.rotate_rho_probs"
+            return F.call(c, unitaries.rotate_rho_probs, [st, op["basis"], tens(op["rows"])], [Opt("unitaries", ud), Opt("rho", rho), extras(c)])
         raise KeyError(w)
     if t == "gradient":
         w = op["what"]
@@ -367,15 +518,18 @@ def do_op(op, states, workdir):
         if w in ("am_grads", "ph_grads"):
             return getattr(st, w)(v)
         if w == "pi_grad":
-            return st.pi_grad(v, tens(op["rows2"]), phase=bool(op.get("phase", False)), expand=bool(op.get("expand", False)))
+            c = "state.pi_grad"
+            return F.call(c, st.pi_grad, [v, tens(op["rows2"])], [F.flag(c, "phase", op.get("phase", False)), F.flag(c, "expand", op.get("expand", False))])
         raise KeyError(w)
     if t == "batchGradient":
         v = tens(op["rows"])
         neg = tens(op["neg"])
         b = bases_arr(op["bases"]) if op.get("bases") is not None else None
-        if isinstance(st, PositiveWaveFunction):
-            return st.compute_batch_gradients(op["k"], v, neg)
-        return st.compute_batch_gradients(op["k"], v, neg, bases_batch=b)
+        c = "state.compute_batch_gradients"
+        opts = [F.int(c, "k", op["k"]), Opt("samples_batch", v), Opt("neg_batch", neg)]
+        if not isinstance(st, PositiveWaveFunction):
+            opts.append(Opt("bases_batch", b))
+        return F.call(c, st.compute_batch_gradients, [], opts, legacy_pos=3)
     if t == "save":
         md = op.get("metadata")
         if md is not None:  # save(path, metadata=...): the file gets extra keys, the model must stay as it is
@@ -414,6 +568,7 @@ def main():
         before_p = [param_hash(s) for s in states]
         before_r = rng_hashes()
         rec = {"t": op["t"]}
+        FORMS[0] = None
         try:
             val = do_op(op, states, workdir)
             if val is None:
@@ -432,6 +587,9 @@ def main():
             # diagnostic only (never compared): lets a reader of a replay file see whether a difference is
             # rounding-sized or draw-sized
             rec["params_l1"] = [param_l1(s) for s in states]
+        if FORMS[0] is not None and FORMS[0].used:
+            rec["forms"] = FORMS[0].used      # [call.option, form, positional] of every boolean / integer option handed over
+            rec["layout"] = FORMS[0].layout   # [call, none / some / all of its options positionally]
         rec["calls"] = [list(c) for c in CALLS]
         rec["seeds"] = [list(s) for s in SEEDS]
         records.append(rec)
